@@ -33,6 +33,16 @@ Example key_without_user_requested_refuted :
   covers ks as_tuple_gen = false /\
   list_beq fval_beq (map (get o1) ks) (map (get o2) ks) = true /\ o1 <> o2.
 Proof. vm_compute. repeat split; discriminate. Qed.
+(* the cache of "call as-is" verdicts (conversion._ALLOWLIST_CACHE, consulted first by converted_call) is keyed alike *)
+Theorem allowlist_key_covers_eq : covers allowlist_key_gen as_tuple_gen = true.
+Proof. vm_compute; reflexivity. Qed.
+Theorem allowlist_key_complete : forall o1 o2 : options,
+  list_beq fval_beq (map (get o1) allowlist_key_gen) (map (get o2) allowlist_key_gen) = true -> o1 = o2.
+Proof.
+  intros o1 o2 H. apply opt_eqb_eq. unfold opt_eqb, as_tuple.
+  exact (covers_key_complete_lemma allowlist_key_gen as_tuple_gen (get o1) (get o2) allowlist_key_covers_eq H).
+Qed.
+Print Assumptions allowlist_key_complete.
 Print Assumptions cache_key_complete.
 Print Assumptions reused_code_embeds_requested_options.
 Print Assumptions cache_key_covers_eq.
